@@ -285,8 +285,8 @@ def mk_ite(c, a, b):
 
 
 # -------------------------------------------------------------- evaluator
-class Return(Exception):
-    pass
+class Aborted(Exception):
+    """An inlined callee raises unconditionally: the calling path ends."""
 
 
 @dataclass
@@ -320,6 +320,7 @@ class Evaluator:
         self.opaque = set(opaque_funcs)     # qualnames not to inline
         self.hooks = hooks or {}            # ext/dotted name -> fn(ev, args, kwargs)
         self.trace = []
+        self._stack = []
 
     # ---------------------------------------------------------- objects
     def symbolic_instance(self, ci: ClassInfo, path='self'):
@@ -357,7 +358,15 @@ class Evaluator:
                 dc, k, what = r
                 if k == 'method':
                     if what.is_property:
+                        if what.qualname in self.hooks:
+                            return self.hooks[what.qualname](self, [obj], {})
+                        if what.is_abstract:
+                            return App('attr:' + attr, (obj,))
                         return self.call(what, [obj], {}, 1)
+                    if what.is_static:
+                        return FuncRef(what, what.qualname, None)
+                    if what.is_classmethod:
+                        return FuncRef(what, what.qualname, ClassRef(ci, ci.name))
                     return FuncRef(what, what.qualname, obj)
                 # class-level constant
                 return self.eval_in_module(what, dc.module)
@@ -435,18 +444,39 @@ class Evaluator:
         return env
 
     def call(self, fi: FuncInfo, args, kwargs, depth=0):
-        """Inline a repo function: returns its gated return value."""
+        """Inline a repo function: returns its gated return value; its raise
+        outcomes are propagated to the calling frame."""
         if depth > MAX_DEPTH:
             return Unknown(f'inlining depth exceeded at {fi.qualname}')
+        caller = self._stack[-1] if self._stack else None
         out = self.run(fi, args, kwargs, depth)
+        if caller is not None and out.raises:
+            fr, pc = caller
+            for rpc, name, node in out.raises:
+                fr.raises.append((list(pc) + list(rpc), name, node))
+            if not out.returns and not out.fell_through:
+                raise Aborted()
+            if len(out.raises) <= 3:
+                for rpc, name, node in out.raises:
+                    c = self.conj(rpc)
+                    if not (isinstance(c, Const)):
+                        pc.append(mk_not(c))
         return self.gated_return(out)
 
     def gated_return(self, out):
         if not out.returns:
             return Const(None)
+        if len(out.returns) > 1 and isinstance(out.returns[-1][1], Const) \
+                and out.returns[-1][1].v is None and getattr(out, 'fell_through', False):
+            pass
+        # conditions common to every return are preconditions of returning at all
+        pcs = [list(pc) for pc, _ in out.returns]
+        k = 0
+        while all(len(p) > k for p in pcs) and all(same(p[k], pcs[0][k]) for p in pcs):
+            k += 1
         val = out.returns[-1][1]
         for pc, v in reversed(out.returns[:-1]):
-            c = self.conj(pc)
+            c = self.conj(pc[k:])
             val = mk_ite(c, v, val)
         return val
 
@@ -464,9 +494,17 @@ class Evaluator:
             env.update(env_extra)
         self_obj = args[0] if (fi.cls and not fi.is_static and args) else None
         fr = Frame(fi, self_obj, depth)
-        fr.env_final = None
-        self.block(fi.node.body, env, [], fr)
-        return Outcome(fr.returns, fr.raises, env)
+        pc = []
+        self._stack.append((fr, pc))
+        try:
+            fell = self.block(fi.node.body, env, pc, fr)
+        finally:
+            self._stack.pop()
+        if fell:
+            fr.returns.append((list(pc), Const(None)))
+        out = Outcome(fr.returns, fr.raises, env)
+        out.fell_through = fell
+        return out
 
     # ------------------------------------------------------- statements
     def block(self, stmts, env, pc, fr):
@@ -477,6 +515,20 @@ class Evaluator:
         return True
 
     def stmt(self, st, env, pc, fr):
+        if self._stack and self._stack[-1][0] is fr:
+            self._stack[-1] = (fr, pc)
+        else:
+            self._stack.append((fr, pc))
+            try:
+                return self.stmt(st, env, pc, fr)
+            finally:
+                self._stack.pop()
+        try:
+            return self._stmt(st, env, pc, fr)
+        except Aborted:
+            return False
+
+    def _stmt(self, st, env, pc, fr):
         if isinstance(st, ast.Expr):
             if isinstance(st.value, ast.Constant):
                 return True
@@ -843,19 +895,22 @@ class Evaluator:
         u = is_unknown(a) and a or (is_unknown(b) and b)
         if u:
             return u
-        if isinstance(op, (ast.BitAnd, ast.BitOr, ast.BitXor)) and \
-                isinstance(a, (Cmp, BoolT, Const, Ite, App)) and isinstance(b, (Cmp, BoolT, Const, Ite, App)):
-            return BoolT({ast.BitAnd: 'and', ast.BitOr: 'or', ast.BitXor: 'xor'}[type(op)], (a, b))
-        if isinstance(op, ast.BitOr) and isinstance(a, Obj) and isinstance(b, Obj):
-            return App('union', (a, b))
-        if isinstance(op, ast.BitAnd) and isinstance(a, Obj) and isinstance(b, Obj):
-            return App('intersection', (a, b))
+        if isinstance(a, Obj) and a.ci is not None and isinstance(b, Obj) and a.cls != 'PixCoord':
+            dn = {ast.BitOr: '__or__', ast.BitAnd: '__and__', ast.BitXor: '__xor__',
+                  ast.Add: '__add__', ast.Sub: '__sub__'}.get(type(op))
+            f = self.m.method(a.ci, dn) if dn else None
+            if f is not None:
+                return self.call(f, [a, b], {}, 3)
+        if isinstance(op, (ast.BitAnd, ast.BitOr, ast.BitXor)):
+            if isinstance(a, (Cmp, BoolT, Const, Ite)) and isinstance(b, (Cmp, BoolT, Const, Ite)):
+                return BoolT({ast.BitAnd: 'and', ast.BitOr: 'or', ast.BitXor: 'xor'}[type(op)], (a, b))
+            return App({ast.BitAnd: 'bitand', ast.BitOr: 'bitor', ast.BitXor: 'bitxor'}[type(op)], (a, b))
         if isinstance(op, ast.LShift):
             # value << unit  (astropy): attach unit
             if is_num(a) and is_num(b):
                 return a * b
         if isinstance(a, Tup) and isinstance(b, Tup) and isinstance(op, ast.Add) and \
-                not (_is_vec(a) and _is_vec(b) and (a.kind == 'array' or b.kind == 'array')):
+                a.kind != 'array' and b.kind != 'array':
             return Tup(a.items + b.items, a.kind)
         if isinstance(a, Const) and isinstance(b, Const) and isinstance(a.v, str) and \
                 isinstance(b.v, str) and isinstance(op, ast.Add):
@@ -906,6 +961,10 @@ class Evaluator:
                     if r is not None and r[1] == 'method':
                         if r[2].is_property:
                             return self.call(r[2], [base], {}, fr.depth + 1)
+                        if r[2].is_static:
+                            return FuncRef(r[2], r[2].qualname, None)
+                        if r[2].is_classmethod:
+                            return FuncRef(r[2], r[2].qualname, ClassRef(ci, ci.name))
                         return FuncRef(r[2], r[2].qualname, base)
                     if r is not None and r[1] == 'assign':
                         if self.m.descriptor_kind(ci, attr):
@@ -920,6 +979,10 @@ class Evaluator:
                 return ClassRef(ci, ci.name)
             return App('attr:' + attr, (base,))
         if isinstance(base, ExtRef):
+            if base.name == 'astropy.units' and attr in UNIT:
+                return UNIT[attr]
+            if base.name in ('numpy', 'math') and attr == 'pi':
+                return sp.pi
             return ExtRef(f'{base.name}.{attr}')
         if isinstance(base, ClassRef):
             r = self.m.lookup(base.ci, attr)
@@ -970,6 +1033,17 @@ class Evaluator:
         # method call on a value
         if isinstance(n.func, ast.Attribute):
             base = self.expr(n.func.value, env, fr)
+            if isinstance(base, Tup) and base.kind == 'list' and isinstance(n.func.value, ast.Name) \
+                    and n.func.attr in ('append', 'extend') and len(args) == 1:
+                if n.func.attr == 'append':
+                    env[n.func.value.id] = Tup(base.items + (args[0],), 'list')
+                    return Const(None)
+                items = _iter_items(args[0])
+                if items is not None:
+                    env[n.func.value.id] = Tup(base.items + tuple(items), 'list')
+                    return Const(None)
+                env[n.func.value.id] = Unknown('list extended by symbolic iterable')
+                return Const(None)
             r = self.method_call(base, n.func.attr, args, kwargs, fr, n)
             if r is not NotImplemented:
                 return r
@@ -988,7 +1062,7 @@ class Evaluator:
                                          and not fr.fi.path.endswith('.pyx')):
                 return App('call:' + f.fi.name, tuple(args) + tuple(
                     Tup((Const(k), v)) for k, v in sorted(kwargs.items())))
-            if f.fi.is_abstract:
+            if f.fi.is_abstract and f.qual not in self.hooks:
                 return App('method:' + f.fi.name, tuple(
                     ([f.bound] if f.bound is not None else []) + args))
             a = ([f.bound] if f.bound is not None else []) + args
@@ -1079,7 +1153,8 @@ class Evaluator:
         root = name.split('.')[0]
         a = args = [unq(x) for x in args]
         numeric = all(is_num(x) for x in a)
-        if root in ('numpy', 'np', 'math') or name in ('abs', 'max', 'min', 'float', 'int'):
+        if root in ('numpy', 'np', 'math') or name in ('abs', 'max', 'min', 'float', 'int',
+                                                       'cos', 'sin', 'sqrt', 'fabs'):
             if short in ('cos', 'sin') and len(a) == 1 and is_num(a[0]):
                 return sp.cos(a[0]) if short == 'cos' else sp.sin(a[0])
             if short == 'sqrt' and numeric and len(a) == 1:
@@ -1111,6 +1186,8 @@ class Evaluator:
             if short in ('logical_xor', 'logical_and', 'logical_or') and len(a) == 2:
                 return BoolT(short[8:], tuple(a))
             if short in ('array', 'asarray', 'asanyarray') and a:
+                if isinstance(a[0], Tup) and any(isinstance(i, (App, Obj)) for i in a[0].items):
+                    return Tup(a[0].items, 'list')
                 if isinstance(a[0], Tup):
                     return Tup(a[0].items, 'array') if not any(
                         isinstance(i, Tup) for i in a[0].items) else Tup(
@@ -1130,6 +1207,8 @@ class Evaluator:
         if name == 'isinstance' and len(a) == 2:
             return App('isinstance', tuple(a))
         if name == 'callable':
+            if a and isinstance(a[0], (ExtRef, FuncRef, ClassRef)):
+                return Const(True)
             return App('callable', tuple(a))
         if name == 'getattr' and len(a) >= 2 and isinstance(a[1], Const):
             return self.attr(a[0], a[1].v, fr)
